@@ -102,7 +102,10 @@ def run(chk):
                     names.add(spell(cs[k]["name"]))
                 k += 1
             args = ["list"]
-            for r in chunk[0]["remap"]:
+            rms = list(chunk[0]["remap"])
+            if gi % 2:
+                rms.reverse()                 # several -E flags: in either order
+            for r in rms:
                 args += ["-E", "%s=%s" % (spell(r["from"]), spell(r["to"]))]
             files, diff, members = {}, "", []
             hidden = False
@@ -111,8 +114,16 @@ def run(chk):
                 path = "dir.v1/sub.d/" + base
                 text = body_for(c["grammar"])
                 files[path] = text
-                diff += "diff --git a/%s b/%s\n--- a/%s\n+++ b/%s\n@@ -0,0 +1,%d @@\n%s" % (
-                    path, path, path, path, text.count("\n"), "".join("+" + l + "\n" for l in text.split("\n")[:-1]))
+                body_ = "".join("+" + l + "\n" for l in text.split("\n")[:-1])
+                if len(members) % 3 == 1:
+                    # the file was renamed and edited: the OLD name (--- side) maps to the opposite kind of grammar
+                    # (none if the new name has one, python if it has none); the grammar follows the NEW name
+                    oldp = "was/" + ("renamed.txt" if c["grammar"] not in ("none", "rejected") else "renamed.py")
+                    diff += ("diff --git a/%s b/%s\nsimilarity index 60%%\nrename from %s\nrename to %s\n--- a/%s\n+++ b/%s\n@@ -1 +1,%d @@\n-old\n%s" % (
+                        oldp, path, oldp, path, oldp, path, text.count("\n"), body_))
+                else:
+                    diff += "diff --git a/%s b/%s\n--- a/%s\n+++ b/%s\n@@ -0,0 +1,%d @@\n%s" % (
+                        path, path, path, path, text.count("\n"), body_)
                 members.append((c, path))
                 hidden = hidden or base.startswith(".")
             cid = "g%d" % gi
